@@ -13,6 +13,8 @@
 package c09
 
 import (
+	kerrors "k8s.io/apimachinery/pkg/api/errors"
+	"k8s.io/apimachinery/pkg/util/validation/field"
 	"context"
 	"encoding/base64"
 	"encoding/json"
@@ -841,6 +843,12 @@ func pubPTBody(r *explore.Run, rep *report.R, sc string, twoRes bool) {
 		late = r.Free(2, "composed-secret-late") == 0
 	}
 
+	// The API server may reject composed resource r0 as invalid: it then never
+	// exists, and nothing configured for it - a secret that happens to carry
+	// the name its template writes to least of all - is one of this XR's
+	// connection details.
+	r0Rejected := r.Bool("r0-rejected-as-invalid")
+
 	// Reference: details the composition yields without / with the composed
 	// resources' connection secrets.
 	build := func(withSecrets bool) (map[string]string, bool, []v1.ConnectionDetail, []v1.ConnectionDetail) {
@@ -857,17 +865,17 @@ func pubPTBody(r *explore.Run, rep *report.R, sc string, twoRes bool) {
 		}{{"a", oa}, {"b", ob}} {
 			if cfg, v, has := detailFor(kc.k, kc.opt, s0); cfg != nil {
 				c0 = append(c0, *cfg)
-				if has {
+				if has && !r0Rejected {
 					out[kc.k] = v
 				}
 			}
 		}
 		if cfg, k, v, has, fails := extraFor(ex, s0); cfg != nil {
 			c0 = append(c0, *cfg)
-			if has {
+			if has && !r0Rejected {
 				out[k] = v
 			}
-			if fails {
+			if fails && !r0Rejected {
 				ok = false
 			}
 		}
@@ -896,6 +904,14 @@ func pubPTBody(r *explore.Run, rep *report.R, sc string, twoRes bool) {
 		}})
 	}
 	w := newWorld(r, fi, asks, xrh.ResourcesComposition("comp", ts...), pipelineFn(nil, nil), false)
+	if r0Rejected {
+		w.s.Admit = append(w.s.Admit, func(op *simkube.AdmissionOp) error {
+			if op.Key.Kind == xrh.ResA.Kind && op.Verb != "DELETE" {
+				return kerrors.NewInvalid(op.Key.GK(), op.Key.Name, field.ErrorList{field.Invalid(field.NewPath("spec"), "x", "rejected by validation")})
+			}
+			return nil
+		})
+	}
 	seedPre(w.s, w.dest.Namespace, w.dest.Name, class, map[string]string{"a": "old-a"}, xrOwner, victimOwner)
 	seedComposed := func() {
 		w.s.Seed(mkSecret(sysNS, "r0-conn", connType, nil, r0Secret))
@@ -906,17 +922,27 @@ func pubPTBody(r *explore.Run, rep *report.R, sc string, twoRes bool) {
 	r.Logf("cfg a=%s b=%s extra=%s c@r1=%s filter=%s asks=%d pre=%s late=%v; reference: without secrets %s, with %s, composeOK=%v", cdNames[oa], cdNames[ob], exNames[ex], cdNames[oc], w.fname, asks, preNames[class], late, fmtData(pLate), fmtData(pFull), composeOK)
 
 	victim := whole(w.s.Peek(secKey(sysNS, "victim-conn")))
+	// While r0 is rejected its template has no object and is given a new name
+	// by every reconcile (the XR's resourceRefs keep changing): the XR never
+	// goes quiescent, which is not this property's business.
+	settleXR := func() {
+		if r0Rejected {
+			w.settle("xr", w.xrec, xrNN, 5)
+			return
+		}
+		w.settleOrFail("xr", w.xrec, xrNN)
+	}
 	var obs xrObs
 	if late {
 		before := w.s.Peek(w.dest)
 		logFrom, evFrom := len(w.s.Log), len(w.evs)
-		w.settleOrFail("xr", w.xrec, xrNN)
+		settleXR()
 		w.checkXRSecret(before, pLate, composeOK, evFrom, logFrom)
 	}
 	seedComposed()
 	before := w.s.Peek(w.dest)
 	logFrom, evFrom := len(w.s.Log), len(w.evs)
-	w.settleOrFail("xr", w.xrec, xrNN)
+	settleXR()
 	if late && asks != 0 && composeOK && classOf(before, xrUID) == preOwned {
 		// Keys published before the composed secrets appeared are legitimately
 		// there already; the oracle treats them as pre-existing data.
@@ -929,14 +955,17 @@ func pubPTBody(r *explore.Run, rep *report.R, sc string, twoRes bool) {
 		legit[w.dest] = true
 	}
 	w.victimIntact(victim, legit)
+	if r0Rejected && len(w.s.All(xrh.ResA.GroupKind())) > 0 {
+		panic(explore.HarnessError{Msg: "r0 exists although its creation is rejected"})
+	}
 	// The composed resources' secrets are only read.
 	if got := dataOf(w.s.Peek(secKey(sysNS, "r0-conn"))); !sameData(got, r0Secret) {
 		r.Failf("composed-secret/modified", "the composed resource's connection secret changed: %s", fmtData(got))
 	}
 
 	nt := ""
-	if len(pFull) > 0 && asks != 0 && composeOK {
-		nt = report.Hash(sc, oa, ob, ex, oc, fi, asks, class, late)
+	if (len(pFull) > 0 || r0Rejected) && asks != 0 && composeOK {
+		nt = report.Hash(sc, oa, ob, ex, oc, fi, asks, class, late, r0Rejected)
 	}
 	rep.Eval(sc, report.Hash(obs.keys, obs.conflict, composeOK), nt)
 	if rep.WantSample() && nt != "" && ex != exNone && fi == 2 {
